@@ -1037,6 +1037,10 @@ func (e *Exec) applySpecFn(fn *SpecFn, argx []ast.Expr, env *SpecEnv) (Val, type
 	if len(argx) != len(fn.Params) {
 		return e.specErr("spec fn %s: wrong number of arguments", fn.Name)
 	}
+	if e.usedFns == nil {
+		e.usedFns = map[string]bool{}
+	}
+	e.usedFns[fn.Name] = true
 	var args []string
 	var sorts []string
 	for i, a := range argx {
